@@ -224,14 +224,21 @@ class PBase:
 """
 INH = obj("Inh", F("low", INT), F("high", INT, default=V("0")), F("z", INT, default=V("0")), bases="PBase")
 NZ = newtype("Nz", INT, min=0)
+REQOPT = obj("ReqOpt", F("r", opt(INT)), F("t", opt(STR)), F("s", INT, default=V("0")))
 NTF = obj(
     "NtF",
     F("x", NZ, schema=(("max", 5),)),
+    F("z", NZ, default=V("0"), schema=(("min", -5),)),
+    F("w", ann(NZ, min=-3), default=V("0")),
     F("y", ann(NZ, max=9), default=V("0")),
     F("s", newtype("Nls", STR, max_len=0), default=V("''"), schema=(("min_len", 0),)),
 )
 OBJECTS: Dict[str, Tuple[Sp, str]] = {
     "NtField": (NTF, ""),
+    "ReqOpt": (REQOPT, ""),
+    "NtOnce": (obj("NtOnce", F("z", newtype("Nz1", INT, min=0), default=V("0"), schema=(("min", -5),))), ""),
+    "ann(nt0,looser)": (ann(newtype("Nz2", INT, min=0), min=-5), ""),
+    "ann(str0,looser)": (ann(newtype("Ns0", STR, max_len=0), max_len=2), ""),
     "Inherit": (INH, INH_SRC),
     "ann(nt0)": (ann(NZ, max=5), ""),
     "list0": (ann(lst(INT), max_items=0), ""),
@@ -339,8 +346,35 @@ NTS = obj(
     F("b", INT, default=V("3"), skip=("serialization", "deserialization")),
     kind="namedtuple",
 )
+SMALL = obj("Small", F("a", INT))
+BIG = obj("Big", F("a", INT), F("b", STR, default=V("'x'")), bases="Small")
+SUBM_SRC = """
+@dataclass
+class Small:
+    a: int
+
+@dataclass
+class Big(Small):
+    b: str = 'x'
+
+@dataclass
+class MBase:
+    n: int
+
+    @serialized
+    def info(self) -> Small:
+        return Small(self.n)
+"""
+SUBM = obj(
+    "MSub",
+    F("n", INT),
+    bases="MBase",
+    body="@serialized\ndef info(self) -> Big:\n    return Big(self.n, 'y')",
+    smethods=(("info", "info", BIG, "method"),),
+)
 SER_OBJECTS: Dict[str, Tuple[Sp, str]] = {
     "TDA": (TDA, ""),
+    "SubMethod": (SUBM, SUBM_SRC),
     "TDS": (TDS, SER_SRC),
     "NTS": (NTS, ""),
     "enum_struct": (enum("Est", 0, (1, 2), "s"), ""),
@@ -391,7 +425,13 @@ DF = obj("DF", F("inner", INNER, flatten=True), F("w", INT, default=V("0")))
 DP = obj("DP", F("k", STR, default=V("''")), F("p", mp(INT), default=Fy("dict"), properties="^p"))
 TA = obj("TA", F("kind", lit("ta")), F("x", INT), kind="typeddict")
 TB = obj("TB", F("kind", lit("tb")), F("y", STR), kind="typeddict")
+CIRC = obj("Circle", F("kind", lit("circle"), alias="type", default=V("'circle'")), F("r", INT, default=V("0")))
+SQUA = obj("Square", F("kind", lit("square"), alias="type", default=V("'square'")), F("s", INT, default=V("0")))
 UNION_EXTRA: Dict[str, Tuple[Sp, str]] = {
+    "u(int,none,lit_s)": (union(INT, NONE, lit("a", "b")), ""),
+    "u(none,enum,int)": (union(NONE, enum("E", 1, "x"), INT), ""),
+    "u(str,lit_i,none)": (union(STR, lit(1, 2), NONE), ""),
+    "disc(aliased-literal)": (disc("type", (("circle", "Circle"), ("square", "Square")), CIRC, SQUA), ""),
     "disc(typeddict)": (disc("kind", (("ta", "TA"), ("tb", "TB")), TA, TB), ""),
     "disc(flatten)": (disc("type", (("DF", "DF"), ("DA", "DA")), DF, DA), ""),
     "disc(props)": (disc("type", (("DP", "DP"), ("DA", "DA")), DP, DA), ""),
